@@ -442,6 +442,102 @@ fn production_block(ctx: &Ctx) {
     });
 }
 
+/// The same acceptance model through the real binary: exit 0 is allowed only for bytes equal to an
+/// authentic file outside the counter fields, and the output file must then hold its plaintext.
+fn cli_block(ctx: &Ctx) {
+    use crate::cli::{keyring_text, Cmd, Exit, Ident, WorkDir};
+    let mut rng = Rng::fork(ctx.seed, "C03-cli");
+    let alice = Ident::new("alice", "apw", &mut rng);
+    let bob = Ident::new("bob", "bpw", &mut rng);
+    let wd = WorkDir::new("c03");
+    wd.write("kr.txt", keyring_text(&[(&alice, true), (&bob, true)]).as_bytes());
+    let pt = rng.bytes(11);
+    let chunking = vec![4usize, 4, 3];
+    let kf = mk_key_file(&alice.sk, &bob.pk, &pt, &chunking, &mut rng);
+    let pw = "cli pass".to_string();
+    let pf = Authentic { bytes: refspec::encode_pass_file(pw.as_bytes(), &rng.arr32(), &pt, &chunking), plaintext: pt.clone(), sender: None, body_off: 36, chunking: chunking.clone() };
+    let big_pt = rng.bytes(65536 + 100);
+    let big_pf = Authentic { bytes: refspec::encode_pass_file(pw.as_bytes(), &rng.arr32(), &big_pt, &[65536, 100]), plaintext: big_pt.clone(), sender: None, body_off: 36, chunking: vec![65536, 100] };
+    let mut cases: Vec<(bool, String, Vec<u8>, usize)> = Vec::new(); // (key mode, operator, bytes, which authentic)
+    for (keymode, a, ai) in [(true, &kf, 0usize), (false, &pf, 1), (false, &big_pf, 2)] {
+        let f = &a.bytes;
+        let recs = a.records();
+        cases.push((keymode, "identity".into(), f.clone(), ai));
+        for ext in [vec![0u8], vec![b'\n'], vec![0u8; 512], f.clone()] {
+            let mut x = f.clone();
+            x.extend_from_slice(&ext);
+            cases.push((keymode, "extend".into(), x, ai));
+        }
+        for cut in [1usize, 16, 17, recs.last().unwrap().1 - recs.last().unwrap().0] {
+            cases.push((keymode, "truncate".into(), f[..f.len() - cut.min(f.len())].to_vec(), ai));
+        }
+        if recs.len() >= 2 {
+            cases.push((keymode, "drop-tail".into(), f[..recs[recs.len() - 2].1].to_vec(), ai));
+            let mut x = f[..recs[recs.len() - 2].1].to_vec();
+            x[recs[recs.len() - 2].0 + 11] = 1;
+            cases.push((keymode, "set-last-flag+drop-tail".into(), x, ai));
+            let mut x = f[..a.body_off].to_vec();
+            x.extend_from_slice(&f[recs[1].0..recs[1].1]);
+            x.extend_from_slice(&f[recs[0].0..recs[0].1]);
+            for r in &recs[2..] {
+                x.extend_from_slice(&f[r.0..r.1]);
+            }
+            cases.push((keymode, "permute-chunks".into(), x, ai));
+            let mut x = f.clone();
+            x.splice(recs[0].1..recs[0].1, f[recs[0].0..recs[0].1].to_vec());
+            cases.push((keymode, "duplicate-chunk".into(), x, ai));
+        }
+        let nflips = ctx.tier.pick(24, 200);
+        for k in 0..nflips {
+            let i = if k % 3 == 0 { rng.range(0, a.body_off - 1) } else { rng.range(a.body_off, f.len().min(a.body_off + 200) - 1) };
+            let mut x = f.clone();
+            x[i] ^= 1 << rng.below(8);
+            let in_counter = recs.iter().any(|r| i >= r.0 && i < r.0 + 8);
+            cases.push((keymode, if in_counter { "bitflip-counter-field".into() } else { "bitflip".into() }, x, ai));
+        }
+    }
+    let auths = [kf.clone(), pf.clone(), big_pf.clone()];
+    let wdp = &wd;
+    par_for(cases.len(), crate::util::ncpu(), |i| {
+        let (keymode, op, bytes, ai) = &cases[i];
+        let inp = wdp.write(&format!("in{}.ktl", i), bytes);
+        let outp = wdp.file(&format!("out{}.bin", i));
+        let o = if *keymode {
+            Cmd::new(&wdp.path, &["decrypt", inp.to_str().unwrap(), "-t", "bob", "-o", outp.to_str().unwrap(), "-k", "kr.txt", "--env-pass"]).pass("bpw").run()
+        } else {
+            Cmd::new(&wdp.path, &["password", "decrypt", inp.to_str().unwrap(), "-o", outp.to_str().unwrap(), "--env-pass"]).pass(&pw).run()
+        };
+        ctx.eval();
+        let out = std::fs::read(&outp).ok();
+        let a = &auths[*ai];
+        let case = || json!({"mode": if *keymode { "key" } else { "password" }, "operator": op, "presented": hex_short(bytes, 300), "presented_len": bytes.len(), "authentic_len": a.bytes.len(), "exit": o.exit.describe(), "stderr": o.stderr_s(), "output_len": out.as_ref().map(|x| x.len())});
+        let mode = if *keymode { "key" } else { "password" };
+        match &o.exit {
+            Exit::Timeout => ctx.inconclusive("C03 cli: timeout"),
+            Exit::Code(0) => {
+                if !a.matches_modulo_counters(bytes) {
+                    ctx.violation(&format!("C03:cli:{}:exit-0-for-unauthentic-bytes:{}", mode, op), case());
+                } else if out.as_deref() != Some(&a.plaintext[..]) {
+                    ctx.violation(&format!("C03:cli:{}:exit-0-with-incomplete-or-wrong-output:{}", mode, op), case());
+                } else {
+                    ctx.seen(&format!("cli {} {}: accepted with the complete plaintext", mode, op));
+                }
+            }
+            Exit::Code(1) => {
+                if &a.bytes == bytes {
+                    ctx.violation(&format!("C03:cli:{}:authentic-file-rejected", mode), case());
+                } else {
+                    ctx.seen(&format!("cli {} {}: rejected (exit 1)", mode, op));
+                    ctx.distinct(&format!("cli|{}|{}|{}", mode, op, i));
+                }
+            }
+            other => ctx.violation(&format!("C03:cli:{}:abnormal-termination:{}", mode, other.describe()), case()),
+        }
+        let _ = std::fs::remove_file(&inp);
+        let _ = std::fs::remove_file(&outp);
+    });
+}
+
 pub fn run(ctx: &Ctx) {
     ctx.rule(
         "every presented byte string is generated from authentic files by a named edit operator; the real decryptor's result is judged by the acceptance \
@@ -456,6 +552,10 @@ pub fn run(ctx: &Ctx) {
     key_block(ctx);
     pass_block(ctx);
     production_block(ctx);
+    cli_block(ctx);
+    ctx.require("cli key extend: rejected", 3);
+    ctx.require("cli password extend: rejected", 6);
+    ctx.require("cli password truncate: rejected", 4);
     ctx.require("small truncate", 100);
     ctx.require("keyfile header-bitflip", 1000);
     ctx.require("passfile header-bitflip", 50);
